@@ -35,6 +35,21 @@ CLAIMED["C10"] = {
     "design_ref": "DESIGN.md section 6, C10",
 }
 
+CLAIMED["C06"] = {
+    "text": "Bounded symbolic model checking of the block discipline of one frame, as an inductive step: invariant "
+            "I = (live bindings blocks = 1 + pending entries whose own arm pops a block). Part A executes every "
+            "(ExpressionState, kind) arm of the real eval_expr for Match/If/While/ForIn/Try (and the NotEvaluated arm "
+            "of every other kind) on opaque operands and checks on every feasible non-error path that pushes, pops and "
+            "queued popper entries balance; which arms are poppers is derived from the code, not listed. Part B "
+            "executes the real Break and Continue arms (eval_break / eval_continue) from every I-state with 0..3 "
+            "(thorough 4) pending entries of any popper / non-popper class above the innermost while/for entry and "
+            "checks I afterwards and that the loop's continuation returns the block count to its pre-loop value.",
+    "note": "Trusted: rsx semantics, std models, z3 (path feasibility; shapes are forked). The last step from I to "
+            "'variable not visible' is a paper argument (let writes to the innermost block, lookups scan live blocks). "
+            "One frame (return drops the frame); error outcomes are excluded (C07/C09).",
+    "design_ref": "DESIGN.md section 6, C06",
+}
+
 NOT_YET = "check not built yet in this revision of /verif (planned, see DESIGN.md section 6)"
 
 NA = {
